@@ -84,11 +84,16 @@ func Classify(s *Segment) (*Seg, RejectCategory) {
 		if len(ps) == 2 {
 			// a capture limit is a decimal number; leading zeros are still decimal ("08" is eight), 0 means no limit
 			n, err := strconv.Atoi(ps[1].Value)
-			allDigits := ps[1].Value != ""
-			for _, ch := range ps[1].Value {
+			// (an explicit sign is still a decimal number; the implementation documents "non-positive means unlimited")
+			digits := strings.TrimLeft(ps[1].Value, "+-")
+			allDigits := digits != "" && len(ps[1].Value)-len(digits) <= 1
+			for _, ch := range digits {
 				if ch < '0' || ch > '9' {
 					allDigits = false
 				}
+			}
+			if n < 0 {
+				n = 0
 			}
 			if ps[1].Name != "capture" || ps[1].IsRegex || err != nil || !allDigits {
 				proper = false
